@@ -845,7 +845,7 @@ func main() {
 	dir, seed, thorough := cases.Args()
 	r := cq.NewRNG(seed)
 	s := cases.New("C17", dir, "LW.Corr.C17",
-		"Percentage -5..300 exhaustively and Frequency boundary / 0.1 MHz-step / random values through json.Marshal and Unmarshal with the printed float given exactly (m*2^e); arbitrary JSON numbers into UnmarshalJSON; HEXBytes values and malformed texts; key envelopes with and without label, corrupted, wrong KEK, short and over-long data (AES-128 in Coq). Go side only: AES-192/256 envelopes, ISO8601Time, the 20 payload structs with random optional fields. Every case is non-trivial; distinct = distinct printed case")
+		"Percentage -5..300 exhaustively and Frequency boundary / 0.1 MHz-step / random values through json.Marshal and Unmarshal with the printed float given exactly (m*2^e); arbitrary JSON numbers into UnmarshalJSON; HEXBytes values on a length ladder (0..4096 bytes around powers of two in Coq, up to 64 KiB on the Go side) and malformed texts; key envelopes with and without label, corrupted, wrong KEK, short and over-long data (AES-128 in Coq). Go side only: AES-192/256 envelopes, ISO8601Time, the 20 payload structs with random optional fields and with every variable-length field (HEXBytes, strings, slices) at lengths 17/256/257/4096. Every case is non-trivial; distinct = distinct printed case")
 	floatCases(s, r.Fork(), thorough)
 	hexCases(s, r.Fork(), thorough)
 	envCases(s, r.Fork(), thorough)
